@@ -130,7 +130,8 @@ Qed.
 
 Lemma SF_resetForRetry st rnd : SF st (resetForRetry st rnd).
 Proof.
-  unfold resetForRetry. destruct (sInit st) as [si|]; [|apply SF_panic]. fold retry_q.
+  destruct (sInit st) as [si|] eqn:Ei; [|unfold resetForRetry; rewrite Ei; apply SF_panic].
+  rewrite (resetForRetry_eq st rnd si Ei). unfold retry_result, retry_folds.
   assert (Q : forall s0 x, SF s0 (retry_q s0 x)) by (intros s0 x; unfold retry_q; ifd; [apply SF_queue|apply SF_refl]).
   eapply SF_trans; [apply SF_bif|]. eapply SF_trans; [apply (SF_fold retry_q); exact Q|].
   eapply SF_trans; [apply (SF_fold retry_q); exact Q|].
@@ -448,7 +449,7 @@ Proof.
   pose proof (Inv_balanced _ _ I) as [_ [Hb _]].
   split; [exact G1|split; [exact G2|split; [exact G3|split; [exact G4|split; [exact G5|split; [exact G6|split; [exact Hb|]]]]]]].
   intros l t la sfs fs size mtu probe rnd orc Hv. cbn zeta. unfold step. rewrite (b_panic _ _ (proj1 I)), Hv. cbn [Z.eqb negb orb].
-  pose proof Hv as Hv'. cbn [op_valid] in Hv'. apply andb_prop in Hv' as [Hv' _]. apply andb_prop in Hv' as [Hv' Hsz]. apply andb_prop in Hv' as [Hlive Hl].
+  pose proof Hv as Hv'. cbn [op_valid] in Hv'. apply andb_prop in Hv' as [Hv' _]. apply andb_prop in Hv' as [Hv' _]. apply andb_prop in Hv' as [Hv' Hsz]. apply andb_prop in Hv' as [Hlive Hl].
   destruct (space_live_sget st l Hl Hlive) as [s Hs].
   destruct (popPN_eq false st l rnd s (proj1 I) Hl Hs) as [s1 [pn [Eq _]]].
   pose proof (popPN_bif st l rnd) as Pb. rewrite Eq in *. cbn [fst snd] in *.
@@ -644,7 +645,7 @@ Proof.
   destruct (op_valid st o) eqn:Ev; cbn [negb].
   2:{ intros _ _ Hf. cbn [fst]. apply A. destruct o; exact Hf. }
   destruct o as [l t la sfs fs size mtu probe rnd|l now delay rs|now rnd|l now|now rnd|now|n now|l now|l|now cs hb]; cbn [op_valid] in Ev; cbn in Hpos.
-  - apply andb_prop in Ev as [Ev Hpr]. apply andb_prop in Ev as [Ev Hsz]. apply andb_prop in Ev as [Hlive Hl].
+  - apply andb_prop in Ev as [Ev Hnil]. apply andb_prop in Ev as [Ev Hpr]. apply andb_prop in Ev as [Ev Hsz]. apply andb_prop in Ev as [Hlive Hl].
     destruct (space_live_sget st l Hl Hlive) as [s Hs].
     pose proof (send_carmed st orc l t la sfs fs size mtu probe rnd s B Hl Hs Hpos) as Z.
     destruct (popPN st l rnd) as [st1 pn]. cbn [fst snd] in *. intros BR XR _. apply Z; auto.
